@@ -75,14 +75,18 @@ pub fn judge_schedule(seed: &'static str, word: &[Op], cuts: u32) -> Option<(Vec
                 // does, the divergence needs this particular batching and the batch's kinds are named instead
                 let (culprit, sdf) = match first_divergent_step(seed, word) {
                     Some((j, d)) => (format!("step:{}", word[j].kind()), d),
-                    None => {
-                        let first = (0..=i).rev().take_while(|j| *j == i || (cuts >> *j) & 1 == 0).last().unwrap_or(i);
-                        let kinds: Vec<&str> = word[first..=i].iter().map(|x| x.kind()).collect();
-                        (format!("batch:{}", kinds.join(">")), df.clone())
-                    }
+                    None => (format!("batch:{}", op.kind()), df.clone()),
                 };
+                // context: structural edits earlier in the history (several recorded defects need one)
+                let upto = match first_divergent_step(seed, word) { Some((j, _)) => j, None => i };
+                let ctx: std::collections::BTreeSet<&str> = word[..upto]
+                    .iter()
+                    .map(|x| x.kind())
+                    .filter(|k| matches!(*k, "InsertRows" | "InsertCols" | "DeleteRows" | "DeleteCols" | "MoveRows" | "MoveCols"))
+                    .collect();
+                let ctx: Vec<&str> = if culprit.ends_with(":Undo") || culprit.ends_with(":Redo") { ctx.into_iter().collect() } else { vec!["-"] };
                 ds.push(Disagreement {
-                    sig: format!("replica-diverges culprit={} fields={} shape={}", culprit, classes(&sdf), shape_tokens(&sdf)),
+                    sig: format!("replica-diverges culprit={} ctx={} fields={} shape={}", culprit, ctx.join("+"), classes(&sdf), shape_tokens(&sdf)),
                     case: case.clone(),
                     detail: format!(
                         "after the batch flushed at step {} the replica (right) differs from the primary (left):\n{}",
